@@ -614,6 +614,273 @@ pub fn run_bseq(ctx: &mut Ctx, case: &Value) {
     }
 }
 
+// --------------------------------------------------------------------------- Qualifiers transitions and sequences
+
+fn opt_json(o: Option<&str>) -> Value {
+    match o {
+        Some(v) => json!({"some": true, "v": cps(v)}),
+        None => json!({"some": false}),
+    }
+}
+
+fn qerr() -> Value {
+    json!({"ok": false, "err": "InvalidQualifier"})
+}
+
+fn pairs_of(v: &Value) -> Vec<(String, String)> {
+    v.as_array().map(|a| a.iter().map(|q| (from_cps(&q[0]), from_cps(&q[1]))).collect()).unwrap_or_default()
+}
+
+/// One public call on a live collection; returns the spec-shaped result.
+pub fn apply_qop(q: &mut purl::Qualifiers, op: &Value) -> Value {
+    use purl::qualifiers::well_known::{Checksum, RepositoryUrl};
+    use purl::qualifiers::Entry;
+    let name = op[0].as_str().unwrap_or("");
+    let nested = matches!(name, "try_insert_typed_checksum" | "try_from_iter");
+    let k = if nested { String::new() } else { from_cps(&op[1]) };
+    let v = from_cps(&op[2]);
+    match name {
+        "insert" => match q.insert(k, v) {
+            Ok(r) => json!({"ok": true, "v": cps(r)}),
+            Err(_) => qerr(),
+        },
+        "get" => opt_json(q.get(&k)),
+        "contains_key" => json!({"b": q.contains_key(&k)}),
+        "remove" => opt_json(q.remove(&k).as_deref()),
+        "get_mut_set" => match q.get_mut(&k) {
+            Some(r) => {
+                *r = v.into();
+                json!({"found": true})
+            },
+            None => json!({"found": false}),
+        },
+        "index" => json!({"ok": true, "v": cps(&q[k.as_str()])}),
+        "index_mut_set" => {
+            q[k.as_str()] = v.into();
+            json!({"ok": true})
+        },
+        "entry_classify" => match q.entry(k.as_str()) {
+            Err(_) => qerr(),
+            Ok(Entry::Occupied(mut o)) => {
+                let a = o.get().to_owned();
+                let b = o.get_mut().to_string();
+                let c = o.into_mut().to_string();
+                if a == b && b == c {
+                    json!({"ok": true, "occ": true, "v": cps(&a)})
+                } else {
+                    json!({"ok": true, "occ": true, "v": "get/get_mut/into_mut disagree"})
+                }
+            },
+            Ok(Entry::Vacant(_)) => json!({"ok": true, "occ": false}),
+        },
+        "entry_or_insert" => match q.entry(k) {
+            Err(_) => qerr(),
+            Ok(e) => json!({"ok": true, "v": cps(e.or_insert(v))}),
+        },
+        "entry_or_insert_with" => {
+            let mut calls = 0;
+            match q.entry(k) {
+                Err(_) => qerr(),
+                Ok(e) => {
+                    let r = e.or_insert_with(|| {
+                        calls += 1;
+                        v
+                    });
+                    json!({"ok": true, "v": cps(r), "calls": calls})
+                },
+            }
+        },
+        "entry_and_modify_or_insert" => {
+            let mut calls = 0;
+            let v2 = from_cps(&op[3]);
+            match q.entry(k) {
+                Err(_) => qerr(),
+                Ok(e) => {
+                    let r = e
+                        .and_modify(|x| {
+                            calls += 1;
+                            *x = v.as_str().into();
+                        })
+                        .or_insert(v2);
+                    json!({"ok": true, "v": cps(r), "calls": calls})
+                },
+            }
+        },
+        "occ_insert" => match q.entry(k) {
+            Ok(Entry::Occupied(mut o)) => {
+                let old = o.insert(v);
+                json!({"occ": true, "old": cps(&old)})
+            },
+            _ => json!({"occ": false}),
+        },
+        "occ_remove" => match q.entry(k) {
+            Ok(Entry::Occupied(o)) => json!({"occ": true, "old": cps(&o.remove())}),
+            _ => json!({"occ": false}),
+        },
+        "occ_remove_entry" => match q.entry(k) {
+            Ok(Entry::Occupied(o)) => {
+                let (key, old) = o.remove_entry();
+                json!({"occ": true, "key": cps(&key), "old": cps(&old)})
+            },
+            _ => json!({"occ": false}),
+        },
+        "vac_insert" => match q.entry(k) {
+            Ok(Entry::Vacant(e)) => json!({"vac": true, "v": cps(e.insert(v))}),
+            _ => json!({"vac": false}),
+        },
+        "retain_nonempty" => {
+            let mut calls = 0;
+            q.retain(|_, v| {
+                calls += 1;
+                !v.is_empty()
+            });
+            json!({"calls": calls})
+        },
+        "retain_key_ne" => {
+            let mut calls = 0;
+            q.retain(|key, _| {
+                calls += 1;
+                key != k.as_str()
+            });
+            json!({"calls": calls})
+        },
+        "retain_mut_set" => {
+            let mut calls = 0;
+            q.retain_mut(|_, v| {
+                calls += 1;
+                *v = k.as_str().into();
+                true
+            });
+            json!({"calls": calls})
+        },
+        "iter_mut_set" => {
+            let mut calls = 0;
+            for (_, v) in q.iter_mut() {
+                calls += 1;
+                *v = k.as_str().into();
+            }
+            json!({"calls": calls})
+        },
+        "clear" => {
+            q.clear();
+            json!({"unit": true})
+        },
+        "reserve" => {
+            q.reserve(3);
+            q.reserve_exact(1);
+            let _ = q.capacity();
+            json!({"unit": true})
+        },
+        "insert_typed_repo" => {
+            q.insert_typed(RepositoryUrl::from(k.as_str()));
+            json!({"unit": true})
+        },
+        "remove_typed_repo" => {
+            q.remove_typed::<RepositoryUrl>();
+            json!({"unit": true})
+        },
+        "get_typed_repo" => {
+            let r = q.get_typed::<RepositoryUrl>();
+            let c = q.contains_typed::<RepositoryUrl>();
+            if c != r.is_some() {
+                json!("contains_typed and get_typed disagree")
+            } else {
+                opt_json(r.as_deref())
+            }
+        },
+        "try_get_typed_checksum" => match q.try_get_typed::<Checksum>() {
+            Err(_) => qerr(),
+            Ok(None) => json!({"ok": true, "some": false}),
+            Ok(Some(ck)) => {
+                let mut es: Vec<(String, String)> = ck.iter().map(|(a, h)| (a.to_owned(), h.raw().to_owned())).collect();
+                es.sort();
+                json!({"ok": true, "some": true, "entries": es.iter().map(|(a, h)| json!([cps(a), cps(h)])).collect::<Vec<_>>()})
+            },
+        },
+        "try_insert_typed_checksum" => {
+            let mut ck = Checksum::default();
+            for (a, h) in pairs_of(&op[1]) {
+                ck.insert_raw(&a, h);
+            }
+            match q.try_insert_typed(ck) {
+                Ok(()) => json!({"ok": true}),
+                Err(_) => qerr(),
+            }
+        },
+        "try_from_iter" => match purl::Qualifiers::try_from_iter(pairs_of(&op[1])) {
+            Ok(n) => {
+                *q = n;
+                json!({"ok": true})
+            },
+            Err(_) => qerr(),
+        },
+        other => {
+            eprintln!("unknown qualifier op {:?}", other);
+            std::process::exit(2);
+        },
+    }
+}
+
+/// Collection with the given content, built in reverse order with upper-cased keys: the
+/// content must not depend on insertion order or key case.
+fn quals_permuted(v: &Value) -> purl::Qualifiers {
+    let mut pairs = pairs_of(v);
+    pairs.reverse();
+    let pairs: Vec<(String, String)> = pairs.into_iter().map(|(k, v)| (k.to_ascii_uppercase(), v)).collect();
+    purl::Qualifiers::try_from_iter(pairs).expect("valid distinct keys")
+}
+
+fn qop_step(ctx: &mut Ctx, q: &mut purl::Qualifiers, op: &Value, exp_res: &Value, exp_post: &Value) {
+    let r = catch_unwind(AssertUnwindSafe(|| apply_qop(q, op)));
+    let res = match r {
+        Ok(v) => v,
+        Err(_) => json!({"panic": true}),
+    };
+    let documented = exp_res.get("panic").is_some();
+    if res.get("panic").is_some() || documented {
+        ctx.check("C06", "panics exactly where documented (Index/IndexMut on an absent key)", "Qualifiers",
+                  res.get("panic").is_some() == documented, exp_res, &res);
+    }
+    ctx.check("C11", "returned value is what the reference map gives", "Qualifiers", &res == exp_res, exp_res, &res);
+    let post = quals_json(q);
+    ctx.check("C11", "content after the call is what the reference map gives", "Qualifiers", &post == exp_post, exp_post, &post);
+    let ex = quals_extras(q);
+    let all = ex.as_object().map(|m| m.values().all(|b| b == &Value::Bool(true))).unwrap_or(false);
+    ctx.check("C11", "iteration from both ends, len and lookups agree", "Qualifiers", all, &Value::Null, &ex);
+}
+
+pub fn run_qop(ctx: &mut Ctx, case: &Value) {
+    let built = catch_unwind(AssertUnwindSafe(|| quals_permuted(&case["pre"])));
+    let Ok(mut q) = built else {
+        ctx.check("C11", "construction from pairs in another order and key case", "Qualifiers", false, &case["pre"], &json!({"panic": true}));
+        return;
+    };
+    let pre = quals_json(&q);
+    if !ctx.check("C11", "construction from pairs in another order and key case gives the same content", "Qualifiers", pre == case["pre"], &case["pre"], &pre) {
+        return;
+    }
+    // equal content => equal, hash alike, compare Equal (derived over the sorted Vec)
+    let direct = quals_from(&case["pre"]);
+    ctx.check("C11", "same content: ==, hash, cmp agree", "Qualifiers",
+              direct == q && hash_of(&direct) == hash_of(&q) && direct.cmp(&q) == std::cmp::Ordering::Equal, &Value::Null, &Value::Null);
+    qop_step(ctx, &mut q, &case["op"], &case["res"], &case["post"]);
+    if ctx.samples.len() < 2 {
+        ctx.samples.push(json!({"kind": "qualifier transition", "case": case}));
+    }
+}
+
+pub fn run_qseq(ctx: &mut Ctx, case: &Value) {
+    let mut q = purl::Qualifiers::default();
+    if let Some(steps) = case["steps"].as_array() {
+        for st in steps {
+            qop_step(ctx, &mut q, &st["op"], &st["res"], &st["post"]);
+        }
+    }
+    if ctx.samples.len() < 2 {
+        ctx.samples.push(json!({"kind": "qualifier call sequence", "case": case}));
+    }
+}
+
 #[derive(Default, Clone)]
 pub struct Opts {
     pub serde: bool,
@@ -625,6 +892,8 @@ pub fn run_case(ctx: &mut Ctx, case: &Value, opts: &Opts) {
         "build" => run_build(ctx, case),
         "bop" => run_bop(ctx, case),
         "bseq" => run_bseq(ctx, case),
+        "qop" => run_qop(ctx, case),
+        "qseq" => run_qseq(ctx, case),
         other => {
             eprintln!("unknown case kind {:?} at line {}", other, ctx.line);
             std::process::exit(2);
